@@ -22,8 +22,10 @@ import traceback
 from .. import common
 
 
-class CaseTimeout(Exception):
-  """A single case ran past its time budget (raised from a SIGALRM handler in the worker)."""
+class CaseTimeout(BaseException):
+  """A single case ran past its time budget (raised from a SIGALRM handler in the worker).  NOT an
+  Exception subclass: the code under test catches Exception in many places (formula evaluation,
+  rollback, auto-removal) and would swallow the time-out and carry on."""
 
 
 def _alarm(signum, frame):
